@@ -1,5 +1,6 @@
 import Driver.HsShared
 import Mtv.Session.Start
+import Mtv.Handshake.SplitPQ
 /-
   Line-protocol driver of property C06: the client machine against `ServerSpec` (`exchange`), with the
   executable SHA-1 / AES-256 / modular exponentiation plugged in.
@@ -27,6 +28,20 @@ import Mtv.Session.Start
   behind the machine's the operation runs on. The client machine does not look at `server_time` (the model has no
   msg_ids), so a stand-in date ± K is announced; what the server thinks of the first encrypted request's msg_id is
   judged on the real client only.
+    c06.env <tag> <delivery> <session> <store>[+<warnings>[+<first>]] <the 18 tokens>
+  the exchange in another environment: <delivery> = in how many pieces and at what pace the network hands the
+  server's frames to the client's socket (whole | half | cut<k> | tail<k> | each<k>, optionally @<ms>), <session> =
+  where the client keeps its session (stub | tmp | otherdev | deep | rel | relsub | tmpdir-missing | tmpdir-file |
+  tmpdir-otherdev | tmpdir-unset: a file in that kind of place). The client machine reads reply BODIES (framing and
+  the byte stream under it are C08's) and hands the session to `saveSession` (where a storage keeps it is not the
+  machine's): both tokens are checked and the exchange is answered like a `c06.hs` - which is the statement these
+  operations test on the real client.
+    c06.split <tag> <pq>       the guard of handshake.go + the MODEL of math.SplitPQ (`guardedSplit`'s two halves, printed
+                               apart): `refused` | `ok <p1> <p2>` | `running` | `panic:div0`. The model runs with the fixed
+                               draw stream `drvDraws` and `drvRounds` rounds; by `splitPQ_semiprime` the pair does not
+                               depend on the draws, so it must be the pair the real function returns.
+    c06.splitraw <tag> <pq>    the model without the guard, pq = 0 or 1 only (the witnesses of `splitPQ_panics_below_two`)
+    c06.mulmod <tag> <a> <b> <c> <n>   `mulAddMod n a b c`, the inner loop of the model
 -/
 namespace Driver.C06
 open Mtv Mtv.Handshake Driver Driver.Hs
@@ -206,7 +221,109 @@ def handleStep : List String → String
       | .panic _ => "bad-op"
   | [] => "bad-op"
 
+/-! ### `c06.split`, `c06.splitraw`, `c06.mulmod`: the model of `math.SplitPQ` -/
+
+/-- decimal number without sign or leading zeros, at most 40 digits -/
+def dec? (t : String) : Option Nat :=
+  let ds := t.toList
+  if ds.isEmpty ∨ ds.length > 40 ∨ !ds.all Char.isDigit ∨ (ds.length > 1 ∧ ds.head? = some '0') then none else t.toNat?
+
+/-- the stream of draws the driver gives the model (any stream gives the same pair on a product of two primes) -/
+def drvDraws (i : Nat) : Nat × Nat :=
+  (((i + 1) * 0x9E3779B97F4A7C15 + 0x94D049BB133111EB) % 2 ^ 64 / 16,
+   ((i + 1) * 0xBF58476D1CE4E5B9 + 0x2545F4914F6CDD1D) % 2 ^ 64)
+
+/-- rounds of the outer loop the driver gives the model (the first round alone has 2^18 steps of the walk) -/
+def drvRounds : Nat := 48
+
+/-- Miller-Rabin: does base `a` prove the odd `n = d·2^s + 1` composite? -/
+def mrComposite (n d s a : Nat) : Bool :=
+  let x := powMod (a % n) d n
+  if x = 1 ∨ x = n - 1 ∨ a % n = 0 then false
+  else
+    let rec sq : Nat → Nat → Bool
+      | 0, _ => true
+      | k + 1, x => let x := x * x % n; if x = n - 1 then false else sq k x
+    sq (s - 1) x
+
+def twoAdic : Nat → Nat → Nat → Nat × Nat
+  | 0, d, s => (d, s)
+  | fuel + 1, d, s => if d % 2 = 0 ∧ d ≠ 0 then twoAdic fuel (d / 2) (s + 1) else (d, s)
+
+/-- the driver's stand-in for `big.Int.ProbablyPrime(0)` (not part of the verified model: math/big is assumed):
+trial division by the primes below 40 and Miller-Rabin to those twelve bases, exact below 3.3·10^24 — and so is
+Go's Baillie-PSW below 2^64; the two are compared on every `c06.split` -/
+def probablyPrime (n : Nat) : Bool :=
+  let ps := [2, 3, 5, 7, 11, 13, 17, 19, 23, 29, 31, 37]
+  if n < 2 then false
+  else if ps.contains n then true
+  else if ps.any (fun p => n % p = 0) then false
+  else
+    let (d, s) := twoAdic 128 (n - 1) 0
+    ps.all fun a => !mrComposite n d s a
+
+def showSplit : SplitResult → String
+  | .ok (p1, p2) => s!"ok {p1} {p2}"
+  | .panic _ => "panic:div0"
+  | .running => "running"
+
+def handleSplit : List String → String
+  | ["c06.split", _tag, pq] =>
+    match dec? pq with
+    | some pq =>
+      if pq ≥ 2 ^ 64 then "bad-op"
+      -- the two halves of `guardedSplit probablyPrime drvRounds drvDraws`
+      else if pq < 4 || probablyPrime pq then "refused"
+      else showSplit (splitPQ drvRounds drvDraws pq)
+    | none => "bad-op"
+  | ["c06.splitraw", _tag, pq] =>
+    match dec? pq with
+    | some pq => if pq > 1 then "bad-op" else showSplit (splitPQ drvRounds drvDraws pq)
+    | none => "bad-op"
+  | ["c06.mulmod", _tag, a, b, c, n] =>
+    match dec? a, dec? b, dec? c, dec? n with
+    | some a, some b, some c, some n => toString (mulAddMod n a b c)
+    | _, _, _, _ => "bad-op"
+  | _ => "bad-op"
+
+/-! ### `c06.env`: the exchange in another environment -/
+
+def smallNat? (ds : List Char) (lo hi : Nat) : Bool :=
+  ds.all Char.isDigit && 1 ≤ ds.length && ds.length ≤ 6 && (ds.length = 1 || ds.head? ≠ some '0') &&
+    (match (String.ofList ds).toNat? with | some n => lo ≤ n && n ≤ hi | none => false)
+
+/-- `whole | half | cut<k> | tail<k> | each<k>` (k = 1..100000), optionally `@<ms>` (0..200) (`hsDeliveryOk`) -/
+def deliveryTok (t : String) : Bool :=
+  let kind (k : String) : Bool :=
+    k = "whole" || k = "half" ||
+    (match k.toList with
+     | 'c' :: 'u' :: 't' :: ds => smallNat? ds 1 100000
+     | 't' :: 'a' :: 'i' :: 'l' :: ds => smallNat? ds 1 100000
+     | 'e' :: 'a' :: 'c' :: 'h' :: ds => smallNat? ds 1 100000
+     | _ => false)
+  match t.splitOn "@" with
+  | [k] => kind k
+  | [k, ms] => kind k && smallNat? ms.toList 0 200
+  | _ => false
+
+def placeTok (t : String) : Bool :=
+  t ∈ ["stub", "tmp", "otherdev", "deep", "rel", "relsub", "tmpdir-missing", "tmpdir-file", "tmpdir-otherdev", "tmpdir-unset"]
+
+def handleEnv : List String → String
+  | "c06.env" :: _tag :: delivery :: place :: cfg :: rest =>
+    if !deliveryTok delivery || !placeTok place || rest.length ≠ 18 then "bad-op" else
+    match storeTok? cfg with
+    | some st =>
+      -- a file that is not there is the not-found answer; a storage that cannot be read is not an environment of these
+      if st = "fail" || (place ≠ "stub" && st ≠ "notfound") then "bad-op" else handleStep (cfg :: rest)
+    | none => "bad-op"
+  | _ => "bad-op"
+
 def handle : List String → String
+  | "c06.env" :: ts => handleEnv ("c06.env" :: ts)
+  | "c06.split" :: ts => handleSplit ("c06.split" :: ts)
+  | "c06.splitraw" :: ts => handleSplit ("c06.splitraw" :: ts)
+  | "c06.mulmod" :: ts => handleSplit ("c06.mulmod" :: ts)
   | "c06.seq" :: _tag :: keyobj :: k :: rest =>
     match k.toNat? with
     | some k =>
